@@ -193,6 +193,15 @@ func IsHookErr(err error) bool {
 	return errors.As(err, &he)
 }
 
+// LogShape is the hook sequence without record payloads (hook:type per invocation).
+func LogShape(evs []HookEvent) string {
+	s := make([]string, len(evs))
+	for i, e := range evs {
+		s[i] = e.Hook + ":" + e.Type
+	}
+	return strings.Join(s, " ")
+}
+
 func LogString(evs []HookEvent) string {
 	s := make([]string, len(evs))
 	for i, e := range evs {
